@@ -2,7 +2,10 @@ use std::convert::{From, TryInto};
 use std::io::{prelude::*, BufWriter};
 use std::str;
 use std::sync::Arc;
+#[cfg(not(attohttpc_verif))]
 use std::time::Instant;
+#[cfg(attohttpc_verif)]
+use attosim::time::Instant;
 
 #[cfg(feature = "flate2")]
 use http::header::ACCEPT_ENCODING;
